@@ -33,7 +33,7 @@ ASSUMPTIONS = [
     "ops inserted by the compiler (jumps, the Return behind a trailing label) only need to map to the start of some statement, block or header of the file",
     "when the first op of an expansion is also the first op of a nested expansion only one call site can be stored; either is accepted",
 ]
-CASES = {"quick": 2400, "thorough": 40000}
+CASES = {"quick": 4800, "thorough": 40000}
 
 _tape = st.lists(st.integers(0, 10000), min_size=1, max_size=40)
 
